@@ -7,6 +7,9 @@ def repo_commits(prefix):
     return [l.split()[0] for l in out if l.split(" ", 1)[1].startswith(prefix)]
 
 CHECKS = {
+ "C09": ("generated publisher scripts x subscription calls (new only / old+new split / old+new joined, up front or racing the publishers) x listener speeds x thread schedules on the mmap log channel; log-order oracle established by an auditor replay, split-point / suffix / full-replay checks with real-time bounds, reference stability",
+         "Exploration: generated (publishers, subscriptions, schedule) triples under the controlled scheduler, with scheduling points between a publisher's position reservation, its slot write and the in-order advance of the visible tail, and inside the subscription calls; every stream must yield consecutive positions of the one log order at the log's own addresses; joined = everything, old = [0,k) then end, new = [k,N), new-only = gapless suffix; split points bounded by what had been accepted before / was sent after the subscription call; references re-read at the end.",
+         "SC interleavings; send_with_async / reserve_slot / old-only subscription are todo!() upstream and excluded; the log order is read back through the library's own joined subscription on the quiescent channel (cross-checked: accepted set, once each, consecutive slots, producer order).", "6 C09"),
  "C08": ("bounded-exhaustive + generated single-threaded histories of reserve / fill / send-reserved / cancel / send / receive on the 5 kinds implementing the API, counters starting anywhere next to the 32-bit wrap; reference model compared after every step",
          "Exploration: every history up to a length bound for BUFFER_SIZE 2 (exhaustive: 7^5 quick / 7^7 thorough per kind and origin) plus tens of thousands of random histories up to length 120; a slot answered 'sent' is delivered once with the written value, a cancelled one never, and after completion exactly BUFFER_SIZE events are accepted.",
          "Sequential histories only in this part (the interleavings with a polling consumer are exercised by the C01 / C04 parts through the reserve+send_reserved entry point). Documented call restrictions are respected by construction.", "6 C08"),
